@@ -126,6 +126,16 @@ func scenAPI(rep *Report, tier string, seed int64) {
 		}
 		rep.Traces++
 	}
+	// every COMMIT of the sync loop is held back for a moment: whatever the daemon publishes
+	// before its block is committed stays observable for that long
+	Wrap.mu.Lock()
+	Wrap.CommitDelay = 12 * time.Millisecond
+	Wrap.mu.Unlock()
+	defer func() {
+		Wrap.mu.Lock()
+		Wrap.CommitDelay = 0
+		Wrap.mu.Unlock()
+	}()
 	for wkr := 0; wkr < workers; wkr++ {
 		wg.Add(1)
 		go func(id int) {
